@@ -332,10 +332,143 @@ def job_options(ctx):
     ctx.sample({'options': 'FLAE method, Tilt/SAAM/TRIAD representation, TRIAD/OLEQ frame'})
 
 
+DTYPES = ['int8', 'int16', 'int32', 'int64', 'uint8', 'uint16', 'uint32', 'uint64', 'float32', 'float64', 'list']
+
+
+def _as_dtype(rows, dt):
+    if dt == 'list':
+        return [[int(x) for x in r] for r in rows]
+    return np.array(rows).astype(dt)
+
+
+def _twin_dtype(ctx, site, key, ref_rows, batch_call, single_call, tol, signfree=False):
+    """Integer-valued rows held in another dtype/container: both entry points answer with the float64 rows, or both refuse."""
+    try:
+        b = np.asarray(batch_call(), float); berr = None
+    except Exception as ex:
+        b, berr = None, f'{type(ex).__name__}: {ex}'[:120]
+    singles = []
+    for i in range(len(ref_rows)):
+        try:
+            singles.append(np.asarray(single_call(i), float))
+        except Exception as ex:
+            singles.append(f'{type(ex).__name__}: {ex}'[:120])
+    ctx.tick(len(ref_rows))
+    if 'float32' in key:
+        tol = max(tol, 1e-3)                # single-precision samples are processed in single precision by some estimators
+    s_ref = [x for x in singles if isinstance(x, str)]
+    if berr is not None or s_ref:
+        ctx.outcome('dtype-refused')
+        if not (berr is not None and len(s_ref) == len(singles)):
+            ctx.fail(site + ': one entry point refuses the data its twin accepts', key, {'N-row': berr or 'answers', 'single': s_ref[:1] or 'answers'}, 'both answer or both refuse')
+        return
+    for i, r in enumerate(ref_rows):
+        for nm, o in (('N-row', b[i] if len(b) == len(ref_rows) else None), ('single', singles[i])):
+            ok = o is not None and (_eq(o, r, tol) or (signfree and _eq(-o, r, tol)))
+            if not ok:
+                ctx.fail(site + ': rows in another dtype/container give the float64 rows', f'{key} row={i} via={nm}', o, r, tol)
+
+
+def job_dtypes(ctx):
+    from ahrs import Quaternion, QuaternionArray, DCM
+    from ahrs.common import orientation as O
+    from ahrs.utils import metrics as M
+    QP = [[1, 2, 2, 4], [3, 0, 4, 0], [1, 1, 1, 1], [0, 0, 0, 1], [2, 1, 0, 5], [1, 0, 0, 0], [0, 3, 0, 0]]
+    QN = [[1, -2, 2, -4], [-3, 0, 4, 0], [1, -1, -1, 1], [0, 0, 0, -1], [2, 1, 0, -5], [-1, 0, 0, 0], [0, -3, 0, 0]]
+    for dt in DTYPES:
+        for sgn, rows in (('+', QP), ('-', QN)):
+            if sgn == '-' and dt.startswith('uint'):
+                continue
+            F64 = np.array(rows, float)
+            X = _as_dtype(rows, dt)
+            row = lambda i: (list(X[i]) if dt == 'list' else X[i].copy())
+            whole = lambda: ([list(r) for r in X] if dt == 'list' else X.copy())
+            key = f'dtype={dt} sign={sgn}'
+            _twin_dtype(ctx, 'to_DCM', key, [np.asarray(Quaternion(q).to_DCM()) for q in F64], lambda: QuaternionArray(whole()).to_DCM(), lambda i: Quaternion(row(i)).to_DCM(), TOL)
+            _twin_dtype(ctx, 'conjugate', key, [np.asarray(Quaternion(q).conjugate) for q in F64], lambda: QuaternionArray(whole()).conjugate(), lambda i: Quaternion(row(i)).conjugate, TOL)
+            _twin_dtype(ctx, 'to_angles', key, [np.asarray(Quaternion(q).to_angles()) for q in F64], lambda: QuaternionArray(whole()).to_angles(), lambda i: Quaternion(row(i)).to_angles(), TOL)
+            _twin_dtype(ctx, 'construction', key, [np.asarray(Quaternion(q)) for q in F64], lambda: QuaternionArray(whole()), lambda i: Quaternion(row(i)), TOL)
+            ctx.seen(('dtype', dt, sgn)); ctx.cls('dtype:quaternion rows')
+        # angle triples (whole radians) through the from-angles constructors
+        AP = [[1, 0, 2], [0, 1, 3], [2, 1, 0], [3, 0, 1]]
+        AF = np.array(AP, float)
+        Xa = _as_dtype(AP, dt)
+        rowa = lambda i: (list(Xa[i]) if dt == 'list' else Xa[i].copy())
+        wholea = lambda: ([list(r) for r in Xa] if dt == 'list' else Xa.copy())
+        _twin_dtype(ctx, 'from rpy', f'dtype={dt}', [np.asarray(Quaternion(rpy=a)) for a in AF], lambda: QuaternionArray(rpy=wholea()), lambda i: Quaternion(rpy=rowa(i)), TOL)
+        # rotation matrices with integer entries (cube group) through the matrix-to-quaternion functions and constructors
+        if not dt.startswith('uint') and dt != 'list':       # (a nested list is taken by QuaternionArray(DCM=) but not by Quaternion(dcm=): not judged)
+            G = A.G48()[::5]
+            Rr = [np.rint(rq.R(g)) for g in G if np.allclose(rq.R(g), np.rint(rq.R(g)))]
+            RF = np.array(Rr, float)
+            if dt == 'list':
+                XR = [[[int(x) for x in r] for r in m] for m in Rr]
+                rowR = lambda i: [list(r) for r in XR[i]]; wholeR = lambda: [[list(r) for r in m] for m in XR]
+            else:
+                XR = RF.astype(dt)
+                rowR = lambda i: XR[i].copy(); wholeR = lambda: XR.copy()
+            for meth in ('shepperd', 'hughes', 'chiaverini', 'sarabandi', 'itzhack'):
+                refs = []
+                ok = True
+                for m in RF:
+                    try:
+                        refs.append(np.asarray(Quaternion(dcm=m.copy(), method=meth)))
+                    except Exception:
+                        ok = False
+                if not ok or not all(np.all(np.isfinite(r)) for r in refs):
+                    keep = None
+                    continue
+                _twin_dtype(ctx, f'from matrices (method={meth})', f'dtype={dt}', refs, lambda: QuaternionArray(DCM=wholeR(), method=meth), lambda i: Quaternion(dcm=rowR(i), method=meth), TOL, signfree=True)
+            ctx.cls('dtype:matrices')
+    ctx.sample({'dtypes': DTYPES, 'quaternion_rows': QP + QN})
+
+
+def job_dtypes_estimator(ctx, ename):
+    est = [e for e in rf.registry() if e.name == ename][0]
+    AP = [[1, 2, 9], [3, 1, 8], [2, 5, 7], [0, 3, 9], [4, 4, 6]]
+    MP = [[20, 3, 40], [22, 5, 38], [18, 9, 35], [25, 1, 30], [15, 12, 33]]
+    AN = [[1, -2, 9], [-3, 1, 8], [2, 5, -7], [0, -3, 9], [-4, 4, 6]]
+    MN = [[20, -3, 40], [-22, 5, 38], [18, 9, -35], [25, -1, 30], [15, -12, 33]]
+    real_random = np.random.random
+    if est.seeded:
+        np.random.random = lambda n=4: FIXED_START.copy()
+    try:
+        for frame in est.frames:
+            dip = 60.0 if frame == 'NED' else -45.0
+            for dt in DTYPES:
+                if dt == 'int8' or dt == 'float16':
+                    pass
+                for sgn, (a_, m_) in (('+', (AP, MP)), ('-', (AN, MN))):
+                    if sgn == '-' and dt.startswith('uint'):
+                        continue
+                    Af, Mf = np.array(a_, float), np.array(m_, float)
+                    refs = []
+                    try:
+                        for i in range(len(a_)):
+                            refs.append(np.asarray(est.single(Af[i].copy(), None if est.tilt_only else Mf[i].copy(), dip, frame), float))
+                    except Exception:
+                        continue
+                    if not all(np.all(np.isfinite(r)) for r in refs):
+                        continue
+                    Xa, Xm = _as_dtype(a_, dt), _as_dtype(m_, dt)
+                    cp = (lambda x: [list(r) for r in x]) if dt == 'list' else (lambda x: x.copy())
+                    cr = (lambda x, i: list(x[i])) if dt == 'list' else (lambda x, i: x[i].copy())
+                    signfree = est.out == 'q'
+                    tol = 1e-6 if est.seeded else TOL
+                    _twin_dtype(ctx, f'{ename}', f'frame={frame} dtype={dt} sign={sgn}', refs,
+                                lambda: est.batch(cp(Xa), None if est.tilt_only else cp(Xm), dip, frame),
+                                lambda i: est.single(cr(Xa, i), None if est.tilt_only else cr(Xm, i), dip, frame), tol, signfree=signfree)
+                    ctx.seen(('dtype-est', ename, frame, dt, sgn)); ctx.cls('dtype:estimator samples')
+    finally:
+        np.random.random = real_random
+    ctx.sample({'estimator': ename, 'dtypes': DTYPES})
+
+
 def run(ctx):
     k = A.seed_k(ctx.seed)
     ks = [k, (k + 5) % 8] if ctx.thorough else [k]
-    jobs = [('job_rpy', ()), ('job_options', ())]
+    jobs = [('job_rpy', ()), ('job_options', ()), ('job_dtypes', ())]
+    jobs += [('job_dtypes_estimator', (e.name,)) for e in rf.registry() if e.batch is not None]
     for kk in ks:
         jobs.append(('job_twins', (kk,)))
         jobs += [('job_from_dcm', (kk, mi)) for mi in range(len(METHODS))]
